@@ -71,6 +71,16 @@ QH_Cfgs == {HybU(<<2, 2, 2, 2>>, RHyb, 4, 8192, 1, FALSE), HybU(<<1, 2, 1, 4>>, 
             HybU(<<2, 1, 2, 1>>, RHyb, 4, 8192, 0, TRUE)}
 QH_On  == {"zero", "half", "pubm", "pub", "pubp", "regen", "regenp", "dyn"}
 QH_Off == {"zero", "regen"}
+\* ---- limit checking off (Locomotive.assert_limits = false; depth 3, emitted, sampled).  The mode differs from the
+\* default only where the ENGINE is the component a demand runs into: above its transient limit while it ramps (base
+\* unit, kg = 4), above its rating once warm (ConvWarm); where the generator binds (ConvGenBound) and on a battery unit
+\* the same over-limit demands are still rejected (their ensure! do not look at the flag); hybrid: engine + battery.
+NoLim(u) == [u EXCEPT !.assert = FALSE]
+QN_Cfgs == {NoLim(ConvU(2, 4, 1, 4, 2, 0)), NoLim(ConvWarm(2, 2, 1)), NoLim(ConvGenBound(1, 2)),
+            NoLim(BelU(2, 1, 2, 8)), NoLim(HybU(<<2, 2, 2, 2>>, RHyb, 4, 8192, 1, FALSE))}
+QN_On  == {"zero", "pub", "over", "o8", "dbl", "rate", "regenp", "dyn"}
+QN_Off == {"zero", "dyn"}
+SocN == {3, 13}
 \* ---- window edges: battery at its minimum SOC (F-C01-1 corner) and at its maximum SOC (charge limit must be 0 there)
 MS_Cfgs == {BelU(2, 2, 2, 0), BelU(1, 1, 2, 0)}
 MS_Cls  == {"zero", "pub", "regen", "regenp", "dyn"}
